@@ -3,11 +3,11 @@
 # parent and content: /tmp/r7/build_series.log). Usage: fixes/round7/land.sh [first-index]
 set -eu
 cd "$(dirname "$0")"
-for f in [0-9][0-9]_D*.diff; do
+for f in [0-9][0-9]_D*.diff; do [ "${f%%_*}" -lt "${1:-1}" ] && continue
   grep -v '^#' $f > /tmp/r7_cur.diff
   git -C /repo apply /tmp/r7_cur.diff
   git -C /repo add -A
-  git -C /repo commit -q -F msgs/${f%.diff}.txt
+  git -C /repo commit -q -F "$PWD"/msgs/${f%.diff}.txt
   d=${f#*_}; d=${d%.diff}
   echo "$d $(git -C /repo rev-parse --short HEAD)"
 done
